@@ -160,10 +160,10 @@ struct EnvVal {
 std::string show(const EnvVal &e) { return e.set ? "'" + vfq::printable(e.s, 60) + "'" : std::string("<unset>"); }
 std::vector<EnvVal> g_attr_inputs, g_attr_small, g_svc_inputs;
 
+std::map<const void *, std::set<std::string>> g_seen;  // per list: strings already added
 void add(std::vector<EnvVal> &v, const std::string &s) {
   if (s.find('\0') != std::string::npos) return;
-  for (auto &e : v)
-    if (e.set && e.s == s) return;
+  if (!g_seen[&v].insert(s).second) return;
   v.push_back({true, s});
 }
 
@@ -172,14 +172,15 @@ void build_env_inputs(bool thorough) {
   for (const char *s : {"a=1", "a=1,b=2", "a=1,a=2", "service.name=envsvc", "service.name=envsvc,a=1,", "telemetry.sdk.name=custom,a=1", "novalue", "=v", " a = 1 , b=2", "a=1=2,,b=", "process.executable.name=exe"})
     add(g_attr_small, s);
   g_attr_inputs = g_attr_small;
+  for (auto &e : g_attr_small) if (e.set) g_seen[&g_attr_inputs].insert(e.s);
   const char *seeds[] = {"a=1", "a=1,b=2", "a=1,a=2", "service.name=x,a=1", "a=1,", ",a=1", "a", "=v", "a=", "a=1=2", " a = 1 , b=2", "a=1,,b=2", "a=x y,b=2", ",", "=", "a=1;b=2"};
   const std::string classes = "a=, 1\t\x80;";
   for (auto s : seeds) {
     add(g_attr_inputs, s);
     for (auto &m : vfq::mutations(s, classes)) {
       add(g_attr_inputs, m);
-      if (thorough && std::string(s).size() <= 8)
-        for (auto &m2 : vfq::mutations(m, "=, ")) add(g_attr_inputs, m2);
+      if (std::string(s).size() <= (thorough ? 12u : 6u))
+        for (auto &m2 : vfq::mutations(m, thorough ? "=, a" : "=, ")) add(g_attr_inputs, m2);
     }
   }
   add(g_attr_inputs, "k=" + std::string(5000, 'v'));
@@ -299,9 +300,9 @@ void build_users() {
 }
 
 void run_create(vf::Ctx &c) {
-  const std::vector<EnvVal> &alist = c.thorough() ? g_attr_inputs : g_attr_small;
-  int nattr = (int)alist.size();
-  if (nattr > 150) nattr = 150;  // one fork per execution: keep the thorough tier within minutes
+  const std::vector<EnvVal> &alist = g_attr_inputs;  // starts with the hand-written values
+  int nattr = (int)alist.size(), cap = c.thorough() ? 150 : 40;  // one fork per execution: keep the tiers within their budgets
+  if (nattr > cap) nattr = cap;
   const EnvVal &attrs = alist[c.pick("attrs", nattr)];
   const EnvVal &svc = g_svc_inputs[c.pick("svc", 3)];
   const UserAttrs &user = c.pick_from("user", g_users);
